@@ -26,7 +26,7 @@ SaCall(ev) ==
             /\ Len(ev.res) = ev.req
             /\ \A i \in 1..ev.req :
                  IF i <= Len(u) THEN /\ ev.res[i].touched = 1 /\ ev.res[i].len = Len(u[i])
-                                     /\ ev.res[i].bytes = (IF ev.withdest = 1 THEN u[i] ELSE << >>)
+                                     /\ ev.res[i].bytes = (IF ev.withdest[i] = 1 THEN u[i] ELSE << >>)
                                 ELSE ev.res[i].touched = 0
   /\ step' = [op |-> ev.op] /\ UNCHANGED <<mem, hb>>
 TNext == l <= Len(Tr) /\ l' = l + 1 /\ (VssCall(Tr[l]) \/ SaCall(Tr[l])) /\ UNCHANGED out
